@@ -16,7 +16,7 @@ import (
 func init() {
 	register(&Spec{ID: "C17", Title: "Connection descriptions round-trip and never crash the parser", Run: runC17,
 		Meta: core.Meta{
-			Explanation: "Totality and rejection clauses of the property; round-trip equality is not decided. R17.1 (E-LEN): every slice/string index and slice expression in the functions reachable from dsn.Parse, ParseURI, ParseSimple, FormatURI, FormatSimple and FromEnv is proved in range from length facts (dominating len tests, `!= \"\"`, strings.Split/SplitN post-conditions, range/induction patterns) or is a listed reviewed invariant whose guard is re-checked; anything else is a violation (user-supplied DSN text can reach it). R17.2: in both parsers every setValue call is preceded by a comma-ok lookup of the key in the tag-to-field map whose !ok edge returns a non-nil error, and the looked-up field is the one set. R17.3 (E-CONST): the reflect.Kind case sets of setValue and of the formatters agree and setValue's default arm returns an error. R17.4: TagToField never registers the empty string as a key (every map update whose key comes from a split tag is guarded by key != \"\"), so an empty key cannot match a field. R17.5: in ParseURI the value used for a repeated query key is the LAST element of its value list (values[len(values)-1]). R17.7: ParseSimple only strips the surrounding quotes, so FormatSimple must put a string member between quotes unchanged: every use of the member's text in FormatSimple is fmt.Sprintf(\"%q\", s) or strconv.Quote(s) (identity on printable text without quotes and backslashes, non-ASCII included) or a plain concatenation with quote characters; %+q / QuoteToASCII and anything else is rejected. R17.9: in FormatURI every branch condition that depends on a member's text is the comparison of that text itself with the empty string (the documented `not set` skip); a test on a transformed copy (trimmed, lower-cased, its length against another bound) leaves values out of the URI that ParseURI then cannot restore. R17.8: tagToField never makes a registration conditional on the name being absent from the map (formatters use the json-only map, parsers the multiref map; both must resolve a repeated name to the last registered member). R17.6: every iteration of ParseSimple over a key=value part reaches the key lookup or returns an error (no shortcut, e.g. for empty values, skips the unknown-key test and the assignment).",
+			Explanation: "Totality and rejection clauses of the property; round-trip equality is not decided. R17.1 (E-LEN): every slice/string index and slice expression in the functions reachable from dsn.Parse, ParseURI, ParseSimple, FormatURI, FormatSimple and FromEnv is proved in range from length facts (dominating len tests, `!= \"\"`, strings.Split/SplitN post-conditions, range/induction patterns) or is a listed reviewed invariant whose guard is re-checked; anything else is a violation (user-supplied DSN text can reach it). R17.2: in both parsers every setValue call is preceded by a comma-ok lookup of the key in the tag-to-field map whose !ok edge returns a non-nil error, and the looked-up field is the one set. R17.3 (E-CONST): the reflect.Kind case sets of setValue and of the formatters agree and setValue's default arm returns an error. R17.4: TagToField never registers the empty string as a key (every map update whose key comes from a split tag is guarded by key != \"\"), so an empty key cannot match a field. R17.5: in ParseURI the value used for a repeated query key is the LAST element of its value list (values[len(values)-1]). R17.7: ParseSimple only strips the surrounding quotes, so FormatSimple must put a string member between quotes unchanged: every use of the member's text in FormatSimple is fmt.Sprintf(\"%q\", s) or strconv.Quote(s) (identity on printable text without quotes and backslashes, non-ASCII included) or a plain concatenation with quote characters; %+q / QuoteToASCII and anything else is rejected. R17.9: in FormatURI every branch condition that depends on a member's text is the comparison of that text itself with the empty string (the documented `not set` skip); a test on a transformed copy (trimmed, lower-cased, its length against another bound) leaves values out of the URI that ParseURI then cannot restore. R17.10: setValue parses reflect.Int members with strconv.ParseInt(..., 0) or (..., 64) — the formatters write the full int, a narrower bitSize rejects values the library itself produced. R17.9 also covers the variables that carry a member's text out of the loop (user, password, host, port): no branch on them other than the comparison of the text with \"\". R17.8: tagToField never makes a registration conditional on the name being absent from the map (formatters use the json-only map, parsers the multiref map; both must resolve a repeated name to the last registered member). R17.6: every iteration of ParseSimple over a key=value part reaches the key lookup or returns an error (no shortcut, e.g. for empty values, skips the unknown-key test and the assignment).",
 			NotDecided:  "Round-trip equality, alias precedence in the simple form and panics inside package reflect for targets that lack the four tags ParseURI hard-codes are not decided.",
 			Assumptions: []string{"strings.Split(s, sep) with a non-empty separator returns at least one element; strings.SplitN(s, sep, 2) one or two", "url.Values entries are non-empty slices (net/url only creates entries by appending)"},
 		}})
@@ -35,6 +35,8 @@ func runC17(r *core.Run) {
 	defer c17Quote(r)
 	r.Rule("R17.9", "FormatURI leaves a member out only when its text is empty", 1, false)
 	defer c17OmitOnlyEmpty(r)
+	r.Rule("R17.10", "integers are parsed back at the width they are written with", 1, false)
+	defer c17IntWidth(r)
 	defer c17TagLastWins(r)
 
 	var roots []*ssa.Function
@@ -587,6 +589,13 @@ func c17OmitOnlyEmpty(r *core.Run) {
 			return depends(x.X, d+1)
 		case *ssa.Index:
 			return depends(x.X, d+1)
+		case *ssa.Phi:
+			// variables that collect a member's text across the loop (user, passwd, host, port)
+			for _, e := range x.Edges {
+				if depends(e, d+1) {
+					return true
+				}
+			}
 		}
 		return false
 	}
@@ -622,4 +631,37 @@ func c17OmitOnlyEmpty(r *core.Run) {
 		pos = fn.Pos()
 	}
 	r.Check(bad == "" && n > 0, "R17.9", "FormatURI: a member is omitted only when its text is empty", pos, fmt.Sprintf("%d branch(es) on the member's text, all `text == \"\"`", n), bad)
+}
+
+// c17IntWidth: R17.10.
+func c17IntWidth(r *core.Run) {
+	p := r.Prog
+	fn := p.Func("dsn", "", "setValue")
+	n := 0
+	for _, c := range core.Calls(fn) {
+		call, ok := c.(*ssa.Call)
+		if !ok || !(core.IsPkgFunc(call, "strconv", "ParseInt") || core.IsPkgFunc(call, "strconv", "ParseUint")) {
+			continue
+		}
+		n++
+		bits, isC := core.ConstInt64(call.Call.Args[2])
+		r.Check(isC && (bits == 0 || bits == 64), "R17.10", "setValue: "+calleeKey(call)+" bit size", call.Pos(), "bitSize 0 or 64", fmt.Sprintf("an int member is parsed with bitSize %d: FormatURI/FormatSimple write the whole int, so a value beyond that width is written but rejected when the same description is parsed", bits))
+	}
+	if n == 0 {
+		if len(callsToPkg(fn, "strconv", "Atoi")) > 0 {
+			r.OK("R17.10", "setValue: integers parsed with strconv.Atoi", fn.Pos(), "Atoi parses at int width")
+			return
+		}
+		r.Unknown("R17.10", "setValue: integer parsing", fn.Pos(), "no strconv.ParseInt/Atoi call found")
+	}
+}
+
+func callsToPkg(fn *ssa.Function, pkg, name string) []ssa.CallInstruction {
+	var out []ssa.CallInstruction
+	for _, c := range core.Calls(fn) {
+		if core.IsPkgFunc(c, pkg, name) {
+			out = append(out, c)
+		}
+	}
+	return out
 }
